@@ -573,6 +573,12 @@ class BlockUploadStream(io.RawIOBase):
                     raise SdoCommunicationError("CRC is not OK")
                 logger.info("CRC is OK")
         self.pos += len(data)
+        if self._done and self.size is not None and self.pos != self.size:
+            # E.g. a corrupted count of unused bytes in the end response
+            self._error = True
+            self.sdo_client.abort(0x06070010)
+            raise SdoCommunicationError(
+                f"Received {self.pos} bytes, {self.size} were announced")
         return data
 
     def _retransmit(self):
